@@ -29,6 +29,11 @@ import (
 //	clause 2  programmatic t:    ParseQuery(Stringify(t)) is accepted and equals t up to flattening
 //	clause 3  injection:         ParseQuery(template[v := ContactQueryEscaping(v)]) is the template's
 //	                             tree with the one literal replaced by v
+//	clause 4  engine level:      a contact-query template evaluated the way the actions do it
+//	                             (Evaluator.Template / run.EvaluateTemplateText with
+//	                             flows.ContactQueryEscaping; start_session / send_broadcast through the
+//	                             real engine) parses to the template's tree with one literal per
+//	                             expression, whatever the type of the expression's value (c14_engine.go)
 //
 // Every clause is run without and with a resolver and under both redaction policies.
 
@@ -38,10 +43,11 @@ func init() { fw.Register(&c14{}) }
 
 func (p *c14) ID() string { return "C14" }
 func (p *c14) Rule() string {
-	return "a generated case bundles 8 items under one random environment (zone, date format, country; both redaction policies; with and without a resolver): 4 query texts derived from antlr/ContactQL.g4 (implicit conditions, every comparator and alias, AND/OR/implicit AND, parentheses, quoted/naively quoted/bare literals, any case and whitespace, plus token soup and one-character mutations), 2 programmatic trees (NewCondition/NewBoolCombination, 1-4 children, nesting <= 3, conditions valid by construction, values = hostile valid UTF-8) and 2 injection templates (1-5 conditions, the escaped value at a random position). Non-trivial = at least one item whose (parsed) query has >= 2 conditions or a value containing a syntax metacharacter/keyword; distinct = distinct bundle content."
+	return "a generated case bundles 8 items under one random environment (zone, date format, country; both redaction policies; with and without a resolver): 4 query texts derived from antlr/ContactQL.g4 (implicit conditions, every comparator and alias, AND/OR/implicit AND, parentheses, quoted/naively quoted/bare literals, any case and whitespace, plus token soup and one-character mutations), 2 programmatic trees (NewCondition/NewBoolCombination, 1-4 children, nesting <= 3, conditions valid by construction, values = hostile valid UTF-8) 2 injection templates (1-5 conditions, the escaped value at a random position), 2 contact-query templates (1-5 conditions, 1-3 expression sites) evaluated by excellent.Evaluator.Template with flows.ContactQueryEscaping over a context of text, number, boolean, datetime, nil, array and object values (with and without __default__) whose rendered text is hostile, and 1 scenario run through the real engine (flow with set_run_result + start_session + send_broadcast whose contact_query are such templates over the run context; hostile message text, contact name and field value; evaluated query read off the session_triggered / broadcast_created events). Hostile values = valid UTF-8 biased to quotes, backslashes (trailing), operators, parentheses, keywords, plus (20%) look-alike / normalisable characters (typographic and fullwidth quotes, guillemets, primes, Unicode spaces, invisible characters, fullwidth and homoglyph operators and keywords, NFKC- and case-mapping material) spelled over injection skeletons, and raw control characters mixed with quotes and backslashes. Non-trivial = at least one item whose (parsed) query has >= 2 conditions or a value containing a syntax metacharacter/keyword; distinct = distinct bundle content."
 }
 func (p *c14) Directed() []string {
-	return []string{"known-trailing-backslash", "grammar-corpus", "repo-test-queries", "pool-values", "unicode-keys"}
+	return []string{"known-trailing-backslash", "grammar-corpus", "repo-test-queries", "pool-values", "unicode-keys",
+		"confusable-characters", "control-characters-with-escapes", "engine-template-evaluator", "engine-actions"}
 }
 func (p *c14) NumGenerated(tier string) int {
 	if tier == "thorough" {
@@ -63,6 +69,17 @@ func (p *c14) Floors(tier string) []string {
 		"clause1.held.multi_condition", "clause1.held.meta_value",
 		"clause2.held.meta_value", "clause2.held.nested", "clause2.simplify_preserves",
 		"clause3.held.meta_value", "clause3.held.first", "clause3.held.middle", "clause3.held.last",
+		"clause2.held.confusable_value", "clause3.held.confusable_value", "clause2.held.control_mix_value", "clause3.held.control_mix_value",
+		"clause4.held", "clause4.template-evaluator.held", "clause4.action.held",
+		"clause4.template-evaluator.held.text-value", "clause4.template-evaluator.held.non-text-value",
+		"clause4.template-evaluator.held.meta_value.non-text-value", "clause4.template-evaluator.held.multi_site",
+		"clause4.template-evaluator.held.kind.object-default", "clause4.template-evaluator.held.kind.nil", "clause4.template-evaluator.held.kind.array",
+		"clause4.template-evaluator.held.kind.object", "clause4.template-evaluator.held.kind.number", "clause4.template-evaluator.held.kind.boolean",
+		"clause4.template-evaluator.held.kind.datetime", "clause4.template-evaluator.held.kind.text",
+		"clause4.template-evaluator.held.form.identifier", "clause4.template-evaluator.held.form.expression",
+		"clause4.action.held.text-value", "clause4.action.held.non-text-value", "clause4.action.held.meta_value.non-text-value",
+		"clause4.action.event.session_triggered", "clause4.action.event.broadcast_created",
+		"clause4.action.held.kind.object-default", "clause4.action.held.kind.nil", "clause4.action.held.kind.array",
 	}
 }
 
@@ -903,6 +920,8 @@ func (p *c14) Run(c fw.Case) fw.Result {
 			ri := r.Fork("inj")
 			k.checkInjection(cf, genTemplate(ri, cf, k.spec.DateFmt), hostileValue(ri))
 		}
+		k.generatedEngine(r.Fork("engine"), c.Gen, c.Seed*1000003+int64(c.Gen))
+		dates.SetNowFunc(dates.NewFixedNow(fixedNow))
 	}
 	res.Fingerprint = strings.Join(k.fps, "\x01")
 	res.NonTrivial = k.nt
@@ -1006,6 +1025,61 @@ func (k *chk14) directed(name string) {
 			k.checkText("name = "+strconv.Quote(v)+" OR gender = male", "directed")
 			_ = r
 		}
+	case "confusable-characters":
+		// every look-alike character on its own and in the places of an injection: closing the literal,
+		// separating words, spelling an operator or a keyword
+		for i, ch := range allConfusables() {
+			for j, v := range []string{ch, "a" + ch + "b", "x" + ch + " OR id != " + ch + "0", ch + " OR name != " + ch, "x" + ch + ") OR (name != " + ch,
+				"a" + ch + "OR" + ch + "b", "x OR" + ch + "y", `x\` + ch, ch + `\`, `"` + ch + `"`, "name " + ch + " x"} {
+				c := k.cfgs[(i+j)%4]
+				k.checkTree(c, cond("attr", "name", "=", v))
+				k.checkTree(c, comb("and", cond("attr", "name", "=", v), cond("field", "age", ">", "18")))
+				k.checkTree(c, comb("or", cond("field", "gender", "!=", "x y"), comb("and", cond("field", "nickname", "=", v), cond("attr", "name", "!=", v))))
+				for _, t := range []template{
+					{before: "name = ", after: ` AND fields.age > 18`, pos: "first", nparts: 2},
+					{before: `fields.gender = "x y" AND (name != `, after: ` OR nickname = "z")`, pos: "middle", nparts: 3},
+					{before: `age > 18 OR nickname = `, after: ``, pos: "last", nparts: 2},
+				} {
+					k.checkInjection(k.cfgs[(i+j+1)%4], t, v)
+				}
+			}
+		}
+		// whole injections spelled with look-alikes
+		r := fw.NewRand(0, "C14/confusables", 0)
+		for _, sk := range injectionSkeletons {
+			for mode := 0; mode < 3; mode++ {
+				for rep := 0; rep < 6; rep++ {
+					v := confuse(r, sk, mode)
+					c := k.cfgs[(mode+rep)%4]
+					k.checkTree(c, comb("and", cond("attr", "name", "=", v), cond("field", "age", ">", "18")))
+					k.checkInjection(c, template{before: "name = ", after: ` AND fields.age > 18`, pos: "first", nparts: 2}, v)
+					k.checkInjection(c, template{before: `fields.gender = "m" OR (nickname != `, after: `)`, pos: "last", nparts: 2}, v)
+				}
+			}
+		}
+	case "control-characters-with-escapes":
+		// every control character next to every kind of character that needs escaping, in every order
+		n := 0
+		for _, ctl := range controlChars {
+			for _, esc := range escapeNeeding {
+				for _, v := range []string{ctl + esc, esc + ctl, "a" + ctl + "b" + esc, esc + "a" + ctl, "a" + esc + ctl + esc + "b", ctl + esc + ctl} {
+					c := k.cfgs[n%4]
+					n++
+					k.checkTree(c, cond("attr", "name", "=", v))
+					k.checkTree(c, comb("or", cond("attr", "name", "=", v), cond("field", "gender", "!=", "x y"), cond("field", "nickname", "=", v)))
+					k.checkInjection(c, template{before: "name = ", after: ` OR fields.gender = "x y"`, pos: "first", nparts: 2}, v)
+					k.checkInjection(c, template{before: `fields.gender = "x y" AND (name != `, after: ` OR nickname = "z")`, pos: "middle", nparts: 3}, v)
+					if n%3 == 0 {
+						k.checkText("name = "+strconv.Quote(v)+" OR gender = male", "directed")
+					}
+				}
+			}
+		}
+	case "engine-template-evaluator":
+		k.directedEvaluatorTemplate()
+	case "engine-actions":
+		k.directedAction()
+		dates.SetNowFunc(dates.NewFixedNow(fixedNow))
 	case "unicode-keys":
 		// every upper/title-case letter as part of a property key: the parser lower-cases keys, the
 		// formatted key must lex as a property again
